@@ -63,8 +63,20 @@ def gen(rng, size='small', focus=None):
             members.append(m1)
             if first['kind'] == 'processor':
                 processors.append(m1)
+            last_member = m1
+            nested = rng.random() < 0.5
+            if nested:
+                # a nested group: an inner group of one device, entered from m1 through a path that is itself a member of the outer group
+                inner = dict(kind=rng.choice(['processor', 'handler']), cycle=cyc(), up=[])
+                xi = add(inner)
+                if inner['kind'] == 'processor':
+                    processors.append(xi)
+                add(dict(kind='group', gid=2, devices=[xi]))
+                p_in = add(dict(kind='path', gid=2, up=[m1]))
+                members.append(p_in)
+                last_member = p_in
             if rng.random() < 0.5:
-                second = dict(kind=rng.choice(['processor', 'handler', 'buffer']), up=[m1])
+                second = dict(kind=rng.choice(['processor', 'handler', 'buffer']), up=[last_member])
                 if second['kind'] == 'buffer':
                     second.update(min_delay=rng.choice([0, 4, 8]), capacity=rng.choice([1, 2, None]))
                 else:
@@ -81,6 +93,11 @@ def gen(rng, size='small', focus=None):
                 split = [prev, prev]
             for ups in split[:npaths]:
                 p = add(dict(kind='path', gid=gid, up=list(ups)))
+                cur.append(p)
+                blockable.append(p)
+            if nested and rng.random() < 0.5:
+                # the inner group is also used directly by the line
+                p = add(dict(kind='path', gid=2, up=list(prev[:1])))
                 cur.append(p)
                 blockable.append(p)
             prev = cur
